@@ -1067,7 +1067,11 @@ class RTCSctpTransport(AsyncIOEventEmitter):
                     await self._receive_reconfig_param(reconfig_param)
 
         # server
-        elif isinstance(chunk, InitChunk) and self.is_server:
+        elif (
+            isinstance(chunk, InitChunk)
+            and self.is_server
+            and self._association_state == self.State.CLOSED
+        ):
             self._last_received_tsn = tsn_minus_one(chunk.initial_tsn)
             self._reconfig_response_seq = tsn_minus_one(chunk.initial_tsn)
             self._remote_verification_tag = chunk.initiate_tag
